@@ -447,8 +447,19 @@ def run(ctx):
         ctx.obligation("generated files compile", False, r0.log[-1500:])
         ctx.violation("gen-compile", "generated Coq tables do not compile", {"log": r0.log[-3000:]}, found_input=False)
         return
-    r1 = ctx.coq(["C07_rules.v"], timeout=600)
+    # C07_rules (long vm_compute) in a second thread; factory then the exact-rank file here
+    import threading
+    box = {}
+    th = threading.Thread(target=lambda: box.__setitem__("r1", ctx.coq(["C07_rules.v"], timeout=900)))
+    th.start()
     r2 = ctx.coq(["C07_factory.v"], timeout=900)
+    ctx.copy_props("C07/C07_rank_exact.v")
+    r3 = ctx.coq(["C07_rank_exact.v"], timeout=1200) if r2.ok else None
+    th.join()
+    r1 = box["r1"]
+    if r3 is not None and not r3.ok:
+        ctx.violation("proof-broken:C07_rank_exact.v", "the exact (over Q) kernel certificate of the stiffness rule's gradient samples no longer checks although the rank modulo p is full",
+                      {"obligation": "C07_rank_exact.v", "log": r3.log[-3000:]}, found_input=False)
     if not r1.ok:
         found = search_rules(dump)
         for key, what, rep in found:
